@@ -9,6 +9,118 @@ mod shapes_gen {
     include!(concat!(env!("CARGO_MANIFEST_DIR"), "/gen/shapes_gen.rs"));
 }
 
+mod body_gen {
+    include!(concat!(env!("CARGO_MANIFEST_DIR"), "/gen/body_gen.rs"));
+}
+
+/// what the input element itself says about each part (the oracle of C16: the input, token-wise)
+fn input_parts(di: &syn::DeriveInput) -> Value {
+    use vh::body::toks;
+    let fld = |f: &syn::Field| json!({"ident": f.ident.as_ref().map(|i| i.to_string()), "vis": toks(&f.vis), "ty": toks(&f.ty),
+                                        "attrs": f.attrs.iter().filter(|a| !a.path().is_ident("f")).map(toks).collect::<Vec<_>>()});
+    let style = |f: &syn::Fields| match f { syn::Fields::Named(_) => "named", syn::Fields::Unnamed(_) => "tuple", syn::Fields::Unit => "unit" };
+    let data = match &di.data {
+        syn::Data::Struct(s) => json!({"kind": "struct", "style": style(&s.fields), "entries": s.fields.iter().map(fld).collect::<Vec<_>>()}),
+        syn::Data::Enum(e) => json!({"kind": "enum", "style": "", "entries": e.variants.iter().map(|v| json!({
+            "ident": v.ident.to_string(), "discriminant": v.discriminant.as_ref().map(|d| toks(&d.1)), "style": style(&v.fields),
+            "attrs": v.attrs.iter().filter(|a| !a.path().is_ident("f")).map(toks).collect::<Vec<_>>(),
+            "fields": v.fields.iter().map(fld).collect::<Vec<_>>()})).collect::<Vec<_>>()}),
+        syn::Data::Union(_) => json!({"kind": "union"}),
+    };
+    json!({"ident": di.ident.to_string(), "vis": toks(&di.vis), "generics": vh::body::gen_syn(&di.generics),
+           "attrs": di.attrs.iter().filter(|a| !a.path().is_ident("f")).map(toks).collect::<Vec<_>>(), "data": data})
+}
+
+fn replay_body(path: &str) {
+    use vh::body::*;
+    let cases = read_tagged(path, "REPLAY");
+    let mut prop: Vec<Value> = vec![];
+    let mut nprop = 0u64;
+    let mut runs = 0u64;
+    let t = Templates::new();
+    for (ci, c) in cases.iter().enumerate() {
+        let salt = ci;
+        let src = render(&c["body"], salt);
+        let di: syn::DeriveInput = syn::parse_str(&src).unwrap_or_else(|e| panic!("unparsable {:?}: {}", src, e));
+        let want = input_parts(&di);
+        let mut why: Vec<String> = vec![];
+        // ---- FromDeriveInput family
+        for i in 0..body_gen::N_DI {
+            let r = catch(std::panic::AssertUnwindSafe(|| body_gen::body_di(i, &di)));
+            runs += 1;
+            let (declared, res) = match r { Err(p) => { why.push(format!("BD{}: panicked: {}", i, p)); continue } Ok(None) => continue, Ok(Some(x)) => x };
+            let has_data = declared.contains("data");
+            let eok = c["expect"]["ok"].as_bool().unwrap() || !has_data;
+            match res {
+                Ok(parts) => {
+                    if !eok { why.push(format!("BD{} {}: accepted a body with failing members / a union", i, declared)); continue; }
+                    for (k, v) in parts.as_object().unwrap() {
+                        let w = &want[k.as_str()];
+                        let same = if k == "generics" {
+                            v["params"] == w["params"] && v["where"] == w["where"] && (v.get("original").is_none() || v["original"] == *w)
+                        } else { v == w };
+                        if !same { why.push(format!("BD{} {}: part `{}` = {} differs from the input's {}", i, declared, k, v, w)); }
+                    }
+                }
+                Err(e) => {
+                    if eok { why.push(format!("BD{} {}: rejected a body whose members all convert: {}", i, declared, e)); continue; }
+                    // every failure reported, named fields located by their name
+                    let mut locs: Vec<Vec<String>> = vh::recv::leaves_of(&t, e).into_iter().map(|l| l.path).collect();
+                    let mut exp: Vec<Vec<String>> = c["expect"]["failures"].as_array().unwrap().iter().map(|p| p.as_array().unwrap().iter().map(|s| s.as_str().unwrap().to_string()).collect()).collect();
+                    locs.sort(); exp.sort();
+                    if locs != exp { why.push(format!("BD{} {}: failures reported at {:?}, expected {:?}", i, declared, locs, exp)); }
+                }
+            }
+        }
+        // ---- member-level receivers: every subset of magic fields gets exactly the member's parts
+        let check_member = |who: String, got: Option<darling::Result<Value>>, wantm: &Value, why: &mut Vec<String>| {
+            if let Some(r) = got {
+                match r {
+                    Ok(parts) => for (k, v) in parts.as_object().unwrap() {
+                        if v != &wantm[k.as_str()] { why.push(format!("{}: part `{}` = {} differs from the input's {}", who, k, v, wantm[k.as_str()])); }
+                    },
+                    Err(e) => why.push(format!("{}: failed: {}", who, e)),
+                }
+            }
+        };
+        let fld_want = |f: &syn::Field| json!({"ident": f.ident.as_ref().map(|i| i.to_string()), "vis": toks(&f.vis), "ty": toks(&f.ty),
+                                                 "attrs": f.attrs.iter().filter(|a| !a.path().is_ident("f")).map(toks).collect::<Vec<_>>()});
+        match &di.data {
+            syn::Data::Struct(s) => {
+                for f in s.fields.iter() { for i in 0..16 { runs += 1; check_member(format!("BF{}", i), body_gen::body_field(i, f), &fld_want(f), &mut why); } }
+                // Fields::try_from + to_tokens round trip (up to a trailing comma)
+                if let Ok(fs) = darling::ast::Fields::<syn::Field>::try_from(&s.fields) {
+                    let a = norm(&toks(&fs));
+                    let b = norm(&toks(&s.fields));
+                    if a != b { why.push(format!("Fields round trip: `{}` printed as `{}`", b, a)); }
+                }
+            }
+            syn::Data::Enum(e) => for v in e.variants.iter() {
+                let w = json!({"ident": v.ident.to_string(), "discriminant": v.discriminant.as_ref().map(|d| toks(&d.1)),
+                               "fields": norm(&toks(&v.fields)),
+                               "attrs": v.attrs.iter().filter(|a| !a.path().is_ident("f")).map(toks).collect::<Vec<_>>()});
+                for i in 0..16 {
+                    runs += 1;
+                    let got = body_gen::body_variant(i, v).map(|r| r.map(|mut p| { if let Some(f) = p.get_mut("fields") { *f = json!(norm(f.as_str().unwrap())); } p }));
+                    check_member(format!("BV{}", i), got, &w, &mut why);
+                }
+            },
+            _ => {}
+        }
+        for tp in di.generics.type_params() {
+            let w = json!({"ident": tp.ident.to_string(), "bounds": tp.bounds.iter().map(toks).collect::<Vec<_>>(), "default": tp.default.as_ref().map(toks),
+                           "attrs": tp.attrs.iter().filter(|a| !a.path().is_ident("f")).map(toks).collect::<Vec<_>>()});
+            for i in 0..16 { runs += 1; check_member(format!("BT{}", i), body_gen::body_tparam(i, tp), &w, &mut why); }
+        }
+        if !why.is_empty() {
+            nprop += 1;
+            if prop.len() < 30 { why.truncate(6); prop.push(json!({"case": c, "why": why, "source": src, "key": format!("body:{}", src.replace('\n', " "))})); }
+        }
+    }
+    let samples: Vec<Value> = cases.iter().enumerate().step_by((cases.len() / 3).max(1)).take(3).map(|(i, c)| json!({"source": vh::body::render(&c["body"], i), "expect": c["expect"]})).collect();
+    println!("{}", json!({"cases": cases.len(), "prop_mismatch": nprop, "model_drift": 0, "prop": prop, "model": [], "samples": samples, "counts": {"receiver_runs": runs}}));
+}
+
 fn body_source(b: &Value) -> String {
     let fields = |style: &str| match style {
         "named" => " { a: u8 }".to_string(),
@@ -96,6 +208,10 @@ fn raw_line_offset(raw: &RawOutcome, src: &str) -> usize {
 fn main() {
     std::panic::set_hook(Box::new(|_| {}));
     let args: Vec<String> = std::env::args().collect();
+    if args.len() >= 3 && args[1] == "replay-body" {
+        replay_body(&args[2]);
+        return;
+    }
     if args.len() >= 3 && args[1] == "replay-shapes" {
         replay_shapes(&args[2]);
         return;
